@@ -238,3 +238,17 @@ func ReplayParts(t *testing.T, prop string, parts []AnyPart) {
 		}
 	}
 }
+
+// ReportFailure writes the replay file of a failure found outside RunParts
+// (native fuzz targets) and prints the line the driver looks for.
+func ReportFailure(prop, part string, v Verdict, c any) string { return report(prop, part, v, c) }
+
+// RunOne lets a native fuzz target run one case of a part and fail the test
+// with a replay file when the oracle rejects it.
+func RunOne[C any](t *testing.T, prop string, p Part[C], c C) {
+	v := p.Run(t, c)
+	if v.Fail {
+		path := report(prop, p.Name, v, c)
+		t.Fatalf("%s/%s: %s: %s (replay %s)", prop, p.Name, v.Sig, v.Msg, path)
+	}
+}
